@@ -2,5 +2,12 @@ import BnpVerif.Props.C18
 #print axioms C18.power_array
 #print axioms C18.width_spec
 #print axioms C18.format_int
+#print axioms C18.parse_int
+#print axioms C18.parse_format
+#print axioms C18.spec_roundtrip
+#print axioms C18.batch_independent
+#print axioms C18.int_lists
+#print axioms C18.split_join
+#print axioms C18.int_lists_roundtrip
 #print axioms C18.format_int_old_unsound_min
 #print axioms C18.format_int_old_unsound_pow
